@@ -130,13 +130,22 @@ def move_staticmethod_static_scope(source: str, preserve: Collection[str]) -> st
             else:
                 # Accessed through some other object, which may be an instance of the class
                 attributes_to_preserve.add(node.attr)
+        else:
+            attributes_to_preserve.add(node.attr)
 
     static_names = {funcdef.name for funcdef in parsing.iter_funcdefs(root)} | preserve
     name_replacements = {}
 
     replacements = {}
+    base_class_names = {
+        name.id
+        for classdef in core.walk(root, ast.ClassDef)
+        for base in classdef.bases
+        for name in core.walk(base, ast.Name)
+    }
     for classdef in sorted(parsing.iter_classdefs(root), key=lambda cd: cd.lineno, reverse=True):
-        if classdef.bases:
+        if classdef.bases or classdef.name in base_class_names:
+            # Methods may be inherited, overridden or accessed through a subclass
             continue
 
         for funcdef in parsing.iter_funcdefs(classdef):
